@@ -205,6 +205,16 @@ TRUSTED_BASE = [
     "`msg = f\"decision {safe}\"` under `if self.as_json` followed by the last statement `self.logger.log(self.level, msg)` is the result "
     "`some safe`, `return` before it `none`; that the rendering raises for an unserialisable record with as_json=True, the destination and "
     "the level stay by hand (the harness parses the captured message back)",
+    "where C16 uses the world-passing translation of store/file_store.py (atomic_write, FilePolicySource._stat_sig / _ensure_content_sha / etag / "
+    "load): harness/pytolean_world.py and lean/Rbacx/Model/PyWorld.lean, validated against the real functions on every run (Run/SrcEvalFileStore.lean "
+    "vs the functions under scripted stubs, harness/fstranslated.py); trusted readings: a designated external call acts on Python-level state only "
+    "through its returned value; `with <opener>(…) as f` — __enter__ returns the object and does not raise, __exit__ is close() on it, runs on every "
+    "way out and never suppresses; handlers match by class NAME (leaf builtin classes, Exception, BaseException); import statements inside a "
+    "function and logger calls have no effect; getattr(st, 'st_mtime_ns', D) on the stat record is the field and the eagerly evaluated D does not "
+    "raise; os.path.dirname is total and pure; in Run/C16_atomic.lean the six calls of atomic_write are READ as the model's primitives "
+    "(Rbacx.FileSrc.Sim.prim over execOp / partialOp, on the paths the code passes) — what mkstemp / rename / unlink do to a real file system "
+    "is tied by the fault-injection run on real files; _hash_file (chunked sha256) and parse_policy_text stay external (an abstract tag function / "
+    "the parser oracle)",
 ]
 
 
